@@ -184,6 +184,8 @@ func (h *Session) Parse(p []byte) (frame Frame, err error) {
 		}
 		atomic.StoreUint32(&h.ipHeartBeat, 1)
 		h.Statistics[PayloadIP4].Count++
+		// bytes after the IP total length are link layer padding (short frames are padded to 60 bytes): keep them out of the views
+		frame.ether = frame.ether[:frame.offsetPayload+ip4.TotalLen()]
 		frame.offsetIP4 = frame.offsetPayload
 		frame.offsetPayload = frame.offsetPayload + ip4.IHL()
 		proto = ip4.Protocol()
